@@ -71,7 +71,18 @@ def cases(tier, seed):
             sp["weather"].pop("south", None)
             sp.pop("gw", None)
             sp.pop("fm", None)
-        out.append({"spec": sp})
+        c = {"spec": sp}
+        if i % 8 == 6:
+            # the same crop again, in the same process, with a narrower envelope supplied by the
+            # user: the second model must live inside *its* envelope, not the first one's
+            import copy
+            cat = common.crop_catalogue()[sp["crop"]["name"]]
+            tw = copy.deepcopy(sp)
+            tw["crop"]["kw"].update(Zmin=float(gen.pick(rng, [0.2, 0.25, 0.4])), Zmax=round(max(0.5, cat["Zmax"] * float(gen.pick(rng, [0.5, 0.7]))), 2),
+                                    CCx=round(cat["CCx"] * float(gen.pick(rng, [0.6, 0.85])), 3),
+                                    HI0=round(cat["HI0"] * float(gen.pick(rng, [0.7, 0.9])), 3))
+            c["twin"] = tw
+        out.append(c)
     return out
 
 
@@ -203,6 +214,19 @@ def run_case(case):
     res = sim.run(spec, opts=dict(ledger=False, irr=False))
     acc = base.Acc(spec)
     nt = monitor(spec, res, acc) if res.trace.steps else False
+    if case.get("twin") is not None:
+        tw = case["twin"]
+        res2 = sim.run(tw, opts=dict(ledger=False, irr=False))
+        acc2 = base.Acc(tw)
+        if res2.trace.steps:
+            monitor(tw, res2, acc2)
+            acc.cov["twin_runs"] += 1
+        for k, v in acc2.cov.items():
+            acc.cov[k] += v
+        for v in acc2.v:
+            v["msg"] = "second model of the same crop with a user-supplied envelope: " + v.get("msg", "")
+            acc.v.append(v)
+        acc.total += acc2.total
     out = base.finish(spec, res, acc, nt, instruments=("step",),
                       sample_extra={"in_season_days": acc.cov.get("in_season_days", 0)})
     out["crop"] = spec["crop"]["name"] if res.trace.steps else None
